@@ -41,6 +41,7 @@ int main(int argc, char **argv)
     long lbase = 0, pbase = 0;
     FILE *fp = argc > 1 ? fopen(argv[1], "r") : stdin;
     if (fp == NULL) return 2;
+    setvbuf(stdout, NULL, _IOLBF, 0);
     while (fgets(line, sizeof line, fp) != NULL) {
 	long k; char obj[8], op[16]; long a[8] = {0};
 	int n = sscanf(line, "%ld %7s %15s %ld %ld %ld %ld %ld %ld %ld", &k, obj, op, &a[0], &a[1], &a[2], &a[3], &a[4], &a[5], &a[6]);
